@@ -498,14 +498,56 @@ func (p *Path) selectOp(fr *frame, instr *ssa.Select) Value {
 		}
 		return r
 	}
-	// timers among the receive cases may fire now (free choice each)
-	for _, c := range cases {
-		if !c.send && c.ch != nil && c.ch.timer != nil {
-			p.timerRecvReady(fr, instr, c.ch, false)
+	// timers among the receive cases may fire now (free choice each). With lazy timers
+	// (//vf:lazytimers) time only passes while the select would block: a timer firing
+	// between two queued inputs is the same run as the producer pausing between them.
+	if !p.cfg.LazyTimers {
+		for _, c := range cases {
+			if !c.send && c.ch != nil && c.ch.timer != nil {
+				p.timerRecvReady(fr, instr, c.ch, false)
+			}
 		}
 	}
 	rd := ready()
 	chosen := -1
+	if len(rd) == 0 && instr.Blocking && p.cfg.LazyTimers && p.cfg.Sched {
+		// lazy timers: nothing is ready. Either time passes (one pending timer fires) or
+		// another thread runs first - ONE decision per idle period instead of one per timer.
+		for _, c := range cases {
+			if !c.send && c.ch != nil {
+				c.ch.recvWaiting++
+			}
+		}
+		for len(rd) == 0 {
+			var tc []*Chan
+			for _, c := range cases {
+				if !c.send && c.ch != nil && c.ch.timer != nil && c.ch.timer.fireable(p.cfg.MaxTicks) {
+					tc = append(tc, c.ch)
+				}
+			}
+			others := p.enabledOthers()
+			if len(tc) == 0 {
+				p.block(fr, instr, "select", func() bool { return len(ready()) > 0 })
+				rd = ready()
+				break
+			}
+			if len(others) == 0 || p.decide(2, "timer-or-wait") == 0 {
+				k := p.decide(len(tc), "timer-first")
+				p.timerRecvReady(fr, instr, tc[k], true)
+				rd = ready()
+				break
+			}
+			// let another thread run; we stay runnable (a timer can still fire later)
+			k := p.decide(len(others), "sched")
+			p.switchTo(p.cur, others[k])
+			rd = ready()
+		}
+		for _, c := range cases {
+			if !c.send && c.ch != nil {
+				c.ch.recvWaiting--
+			}
+		}
+	}
 	if len(rd) == 0 {
 		if !instr.Blocking {
 			chosen = -1
